@@ -331,6 +331,13 @@ class NAHooks(Hooks):
             if name == 'sign' and r.is_const():
                 c = r.constant()
                 return Rat.const((c > 0) - (c < 0))
+            if name in ('rint', 'around', 'round', 'round_', 'floor', 'ceil',
+                        'trunc') and r.is_const():
+                import math as _m
+                c = r.constant()
+                v = {'floor': _m.floor, 'ceil': _m.ceil,
+                     'trunc': _m.trunc}.get(name, round)(c)
+                return Rat.const(v)
             if name == 'negative':
                 return -r
             if name == 'positive':
@@ -638,7 +645,8 @@ class NAHooks(Hooks):
                     'log', 'sin', 'cos', 'tan', 'sign', 'negative',
                     'positive', 'square', 'reciprocal', 'real', 'imag',
                     'log2', 'log10', 'sinh', 'cosh', 'tanh', 'arcsin',
-                    'arccos', 'arctan', 'floor', 'ceil', 'rint', 'isnan',
+                    'arccos', 'arctan', 'floor', 'ceil', 'rint', 'around',
+                    'round', 'round_', 'trunc', 'isnan',
                     'isinf', 'isfinite', 'logical_not'):
             def un(v, out=None, **k):
                 if not isinstance(v, NA):
@@ -692,6 +700,21 @@ class NAHooks(Hooks):
                     return out
                 return res
             return bi
+        if name in ('equal', 'not_equal', 'less', 'less_equal', 'greater',
+                    'greater_equal'):
+            cop = {'equal': ast.Eq, 'not_equal': ast.NotEq, 'less': ast.Lt,
+                   'less_equal': ast.LtE, 'greater': ast.Gt,
+                   'greater_equal': ast.GtE}[name]()
+
+            def cmpf(a, b, **k):
+                if k.get('out') is not None:
+                    raise Undecided('np.%s with out' % name)
+                a = a if isinstance(a, NA) or is_scalar(a) else na_of(a)
+                b = b if isinstance(b, NA) or is_scalar(b) else na_of(b)
+                if not isinstance(a, NA) and not isinstance(b, NA):
+                    a = na_of(a)
+                return I.cmp1(cop, a, b, None)
+            return cmpf
         if name == 'arange':
             def ar(*a, **k):
                 a = [_const(x) for x in a]
@@ -930,7 +953,16 @@ class NAHooks(Hooks):
                     raise PyRaise('TypeError')
                 if not copy and dt == obj.dt:
                     return obj
-                return NA(a.copy(), dt)
+                b = a.copy()
+                if dt.d.kind in 'iu' and obj.dt.d.kind == 'f':
+                    # float -> int truncates (constants only; symbolic
+                    # entries denote integral values)
+                    import math as _m
+                    for idx in _np.ndindex(*b.shape):
+                        v = b[idx]
+                        if is_scalar(v) and to_rat(v).is_const():
+                            b[idx] = Rat.const(_m.trunc(to_rat(v).constant()))
+                return NA(b, dt)
             return Builtin('astype', astype)
         if name == 'view':
             return Builtin('view', lambda *x, **k: NA(a, obj.dt))
